@@ -10,11 +10,14 @@ Definition id := nat.
 
 (* ---- universe: static facts about each identifier ----------------------- *)
 Inductive kindc := KNs | KCrd | KPlain.
-Record uinfo := mkU {
+Record uinfo := mkUF {
   u_kind : kindc;
   u_nsobj : option id;   (* id of the Namespace object named like this object's namespace, if in the universe *)
   u_crd : option id;     (* id of the CRD object defining this object's kind, if in the universe *)
+  u_fin : bool;          (* every incarnation of this object carries a finalizer that nobody removes
+                            during the run: an accepted DELETE marks it terminating, the object stays *)
 }.
+Definition mkU (k : kindc) (n c : option id) : uinfo := mkUF k n c false.
 
 (* ---- local (manifest) objects of an apply run --------------------------- *)
 Record lobj := mkL {
